@@ -157,6 +157,25 @@ def run(ctx, ck):
     ck.rule('R-SYM.ground-halves', 'statements selecting one half of the ground flags select the other too')
     nsel, nst = check_ground_symmetry(ctx, ck)
     ck.floor('statements selecting a half of the ground flags', nst, 3)
+    # the length every kernel integral is scaled with is the distance of the segment's own end points
+    ck.rule('R-OWN.segment-length', 'Segment.seg_len is set from the end points of the segment (its constructor); the only other writer is the equal segmentation of a straight wire')
+    from ..rules import self_closure
+    allowed_ = {g_.qual for g_ in self_closure(ctx, m.func('mininec.Wire.compute_equal_segments'))}
+    n_w = 0
+    for g_ in m.all_funcs():
+        for x_ in walk_no_nested(g_.node):
+            if isinstance(x_, ast.Attribute) and isinstance(x_.ctx, ast.Store) and x_.attr == 'seg_len':
+                own_ = g_.cls is not None and g_.cls.name == 'Segment' and isinstance(x_.value, ast.Name) and x_.value.id == 'self'
+                other_self = isinstance(x_.value, ast.Name) and x_.value.id == 'self' and g_.cls is not None and g_.cls.name != 'Segment'
+                if other_self:
+                    continue        # (an attribute of the same name on another class)
+                n_w += 1
+                ok_ = own_ or g_.qual in allowed_
+                ck.ob('R-OWN.segment-length', '%s|%s' % (g_.qual, norm(x_)), ok_, g_.loc(x_),
+                      'the segment measures itself' if own_ else ('equal segments of a straight wire share the computed length'
+                      if ok_ else '%s overwrites the length of a segment with a value that is not the distance of its end points: '
+                      'psi scales the kernel integral with it' % g_.qual))
+    ck.floor('writers of Segment.seg_len', n_w, 1)
     # the closed-form self term describes one segment: its length and its radius are of the same pulse
     ck.rule('R-ROLE.self-term', 'length and radius combined in one closed-form potential term belong to the same pulse of the pair')
     from ._roles import check_self_term_roles
